@@ -776,11 +776,10 @@ def _sub(name: str, quick: int, thorough: int, floor: int, must_hit) -> Sub:
 SUBCHECKS = [
     _sub('reclass', 1200, 60000, 100, ('rename_mixed_case', 'reclass_mixed_case', 'remove_mixed_case', 'set_detached',
                                        'op:update')),
-    _sub('delete', 1200, 60000, 100, ('del_indexed', 'pop_indexed', 'clear_inmap', 'del_target_detached', 'clear_detached',
-                                      'del_classname_keyerror')),
+    _sub('delete', 1200, 60000, 100, ('del_indexed', 'pop_indexed', 'clear_inmap', 'del_target_detached', 'clear_detached')),
     _sub('lifecycle', 1000, 50000, 100, ('remove_mixed_case', 'cross_map_copy', 'add_ents_many', 'make_unique_inmap',
                                          'remove_detached', 'no_classname_entity')),
-    _sub('spawn', 600, 30000, 50, ('spawn_reclass_attempt', 'spawn_reclass_valueerror', 'spawn_rename', 'spawn_del_class',
+    _sub('spawn', 600, 30000, 50, ('spawn_reclass_attempt', 'spawn_rename', 'spawn_del_class',
                                    'spawn_pop_class', 'spawn_clear')),
     _sub('parse', 600, 30000, 50, ('parsed_map_with_ents', 'remove_inmap', 'op:set', 'op:copy')),
     _sub('iterate', 800, 40000, 50, ('iter_mutated_multi', 'iter_by_class', 'iter_by_target', 'iter_search',
